@@ -165,6 +165,12 @@ func genDescription(r *rng.R) string {
 	var ls []string
 	for i := 0; i < n; i++ {
 		switch {
+		case r.P(1, 12):
+			// a very long line (folded YAML scalars produce them): beyond 4 KiB and 64 KiB buffers
+			w := rng.Pick(r, []string{"long word ", "x", "äö "})
+			ls = append(ls, strings.Repeat(w, rng.Pick(r, []int{500, 4096, 5000, 70000, 200000})/len(w))+"end")
+		case r.P(1, 10):
+			ls = append(ls, "double  space\tand tab\u00a0nbsp "+strconv.Itoa(r.Intn(1000)))
 		case i > 0 && i < n-1 && r.P(1, 4):
 			ls = append(ls, "")
 		case i > 0 && i < n-1 && r.P(1, 6):
@@ -890,6 +896,71 @@ func c02(run *ev.Run, tier string) {
 			}
 		}
 	})
+	// history: a configured rpm build host must not become the default of a later
+	// package built in the same process (the default is the machine's host name)
+	if hn, err := os.Hostname(); err == nil {
+		for round := 0; round < 2; round++ {
+			s1 := base()
+			s1.RPM.BuildHost = fmt.Sprintf("configured-host-%d", round)
+			_ = buildDecode(s1, "rpm", "buildhost history: configured")
+			s2 := base()
+			s2.RPM.BuildHost = ""
+			run.Case(fmt.Sprintf("history|rpm-buildhost-default-after-configured|%d", round), true)
+			if p := buildDecode(s2, "rpm", "buildhost history: default"); p != nil {
+				got, _ := p.Rpm.Hdr.Str(dec.RpmTagBuildHost)
+				atomic.AddInt64(&cmps, 1)
+				if got != hn {
+					run.Violate("C02/rpm/buildhost-default-after-configured-build", map[string]any{"got": got, "want_hostname": hn})
+				}
+			}
+		}
+	}
+	// the command line tool with the packager guessed from the target's extension
+	// must ship the same metadata (incl. the format's override block)
+	if bin := nfpmBin(run); bin != "" {
+		for i := 0; i < 6; i++ {
+			root := newWorkDir("c02cli")
+			c, err := gen.New(uint64(run.Seed), 500000+i, root, gen.Opts{NEntries: [2]int{1, 2}})
+			if err != nil {
+				run.Inconclusive(err.Error())
+				continue
+			}
+			r := rng.New(uint64(run.Seed)).Fork(uint64(2000003 + i))
+			s := c.Spec
+			v := genMeta(r, s, i)
+			s.Platform = ""
+			for _, f := range []string{"deb", "rpm", "apk", "ipk"} { // make sure every format has an override block
+				o := s.Overrides[f]
+				if o == nil {
+					o = &gen.Over{}
+				}
+				style := map[string]string{"deb": "deb", "ipk": "deb", "rpm": "rpm", "apk": "plain"}[f]
+				for len(o.Depends) == 0 {
+					o.Depends = genRelList(r, style)
+				}
+				s.SetOverride(f, o)
+			}
+			cfgp := filepath.Join(root, "nfpm.yaml")
+			_ = os.WriteFile(cfgp, []byte(s.YAML()), 0o644)
+			for _, f := range []string{"deb", "rpm", "apk", "ipk"} {
+				tgt := filepath.Join(root, "out."+f)
+				so, se, code, err := runCmd(nil, root, nil, bin, "package", "-f", cfgp, "-t", tgt)
+				run.Case(fmt.Sprintf("cli-inferred-packager|%s|%d", f, i), true)
+				if err != nil || code != 0 {
+					run.Violate("C02/"+f+"/cli-build-failed", map[string]any{"case": i, "output": ev.Short(string(so)+string(se), 300)})
+					continue
+				}
+				raw, _ := os.ReadFile(tgt)
+				p := dec.Decode(f, raw, false)
+				if len(p.Errs) > 0 {
+					run.Violate("C02/"+f+"/undecodable", map[string]any{"case": "cli", "errors": p.Errs})
+					continue
+				}
+				checkMeta(metaCmp{run, f, fmt.Sprintf("cli-inferred-%d", i), &cmps}, s, v, p, expectArch(table, f, s.Arch), c)
+			}
+			removeWorkDir(root)
+		}
+	}
 	run.Set("field_comparisons", cmps)
 	run.Set("external_readers", map[string]bool{"dpkg-deb": have("dpkg-deb")})
 	run.Assume("a relation is demanded only where the format's metadata vocabulary has a field for it (deb all eight; ipk all but breaks; rpm requires/recommends/suggests/conflicts/obsoletes/provides; apk depend/replaces/provides; archlinux depend/conflict/replaces/provides)")
